@@ -1,10 +1,11 @@
 #!/usr/bin/env python3
-"""tools/seedall.py <prop> <dir containing out/<i>/{patch.diff,demo.py,meta.json}> [tier]
+"""tools/seedall.py <prop> <dir containing out/<i>/{patch.diff,demo.py,meta.json}> [tier] [index offset]
 Confirms each seeded change in a scratch worktree of /repo HEAD, runs ./check against the patched tree
 (VERIF_REPO), and records it under /verif/seeded/<prop>-<i>/ (patch.diff, demo.py, meta.json)."""
 import json, os, re, shutil, subprocess, sys
 prop, base = sys.argv[1], sys.argv[2]
 tier = sys.argv[3] if len(sys.argv) > 3 else "quick"
+offset = int(sys.argv[4]) if len(sys.argv) > 4 else 0
 out = os.path.join(base, "out")
 for i in sorted(os.listdir(out)):
     d = os.path.join(out, i)
@@ -40,7 +41,7 @@ for i in sorted(os.listdir(out)):
             prop, i, confirmed, d0, d1, suite, detected, with_input, chk.returncode))
         print("    ", tail[-2] if len(tail) > 1 else tail)
         if confirmed:
-            dst = "/verif/seeded/%s-%s" % (prop, i)
+            dst = "/verif/seeded/%s-%s" % (prop, (int(i) + offset) if i.isdigit() else i)
             os.makedirs(dst, exist_ok=True)
             shutil.copy(os.path.join(d, "patch.diff"), dst)
             shutil.copy(os.path.join(d, "demo.py"), dst)
